@@ -1,7 +1,11 @@
 (* C05  Network input can never make the QUIC/TLS API raise.
    Only statements here; proofs live in coq/proofs/{FramesP,ConnRecvP}.v.  Model: coq/model/{Frames,ConnRecv}.v,
    dispatch table GENERATED from the source (coq/gen/C05Tables.v).  [true] = tree with docs/C05-fix-*.patch,
-   [false] = pinned tree. *)
+   [false] = pinned tree.
+   TLS message layer (tls_* theorems at the end): model coq/model/{TlsParse,TlsRecv}.v, proofs
+   coq/proofs/{TlsParseP,TlsRecvP,TlsSitesP}.v, dispatch GENERATED (coq/gen/TlsDispatch.v), constants and the
+   raise-site skeleton of tls.py GENERATED (coq/gen/C05Tls.v). *)
+From AQ Require Import gen.C05Tls gen.TlsDispatch model.TlsParse model.TlsRecv proofs.TlsParseP proofs.TlsRecvP proofs.TlsSitesP.
 From AQ Require Import lib.Base model.Frames gen.C05Tables model.ConnRecv proofs.FramesP proofs.ConnRecvP.
 
 (* For ALL payload byte strings and every frame boundary reached through successfully handled frames
@@ -85,3 +89,126 @@ Theorem frame_table_rfc9000 :
   map (fun row => (fst row, snd (snd row))) frame_table = rfc9000_table3.
 Proof. exact frame_table_is_rfc9000. Qed.
 Print Assumptions frame_table_rfc9000.
+
+(* ---------------------------------------------------------------------------------------------------
+   TLS message layer.  Oracle records [orc] carry the answers of cryptography / X.509 / callbacks; every
+   field is decoded totally, so "for all orcs" covers every answer the model distinguishes. *)
+
+(* Every handshake-message parser, on ANY byte string whose first byte is the dispatched type: returns, or
+   raises BufferReadError / AlertDecodeError / AlertIllegalParameter -- never IndexError, UnicodeDecodeError,
+   AssertionError, ... *)
+Theorem tls_parsers_total : forall msg,
+  (head_is 1 msg -> TlsParseP.pres (pull_client_hello msg)) /\
+  (head_is 2 msg -> TlsParseP.pres (pull_server_hello msg)) /\
+  (head_is 8 msg -> TlsParseP.pres (pull_encrypted_extensions msg)) /\
+  (head_is 11 msg -> TlsParseP.pres (TlsParse.pull_certificate msg)) /\
+  (head_is 13 msg -> TlsParseP.pres (pull_certificate_request msg)) /\
+  (head_is 15 msg -> TlsParseP.pres (pull_certificate_verify msg)) /\
+  (head_is 20 msg -> TlsParseP.pres (TlsParse.pull_finished msg)) /\
+  (head_is 4 msg -> TlsParseP.pres (pull_new_session_ticket msg)).
+Proof. exact tls_parsers_all. Qed.
+Print Assumptions tls_parsers_total.
+
+(* Every handler the generated dispatch table can select, in the state and for the message type it is selected
+   for: returns in a well-formed state having read the framed message exactly, or leaves with
+   BufferReadError / a documented alert / the QuicConnectionError of a connection callback. *)
+Theorem tls_handlers_total : forall g o, wf_cfg g -> forall c t h msg,
+  dispatch (t_state c) t = DHandler h -> head_is t msg -> wf_ctx c ->
+  lgood o c msg (run_tls_handler true h g c o msg).
+Proof. exact handlers_tls_total. Qed.
+Print Assumptions tls_handlers_total.
+
+(* Context.handle_message, tree with docs/C05-fix-7.patch: for ALL byte strings delivered as CRYPTO data,
+   in EVERY state a Context can be in (fresh client, or wf_ctx -- preserved, so every reachable state), for
+   ALL oracle answers: returns (state again well-formed) or raises a tls.Alert whose description is one of
+   eight documented AlertDescription values, or the QuicConnectionError of _alpn_handler /
+   _handle_session_ticket -- never any other exception class. *)
+Theorem tls_handle_message_total : forall g c orcs data,
+  wf_cfg g -> wf0 c ->
+  match handle_message true g c orcs data with
+  | MOk c' => wf_ctx c'
+  | MExn e => good_mexn orcs e
+  end.
+Proof. exact handle_message_total. Qed.
+Print Assumptions tls_handle_message_total.
+
+(* ... for any sequence of CRYPTO deliveries from a fresh client or server Context *)
+Theorem tls_run_total : forall g, wf_cfg g -> forall chunks c, wf0 c ->
+  match run true g c chunks with
+  | MOk c' => wf0 c'
+  | MExn e => never_escapes e
+  end.
+Proof. exact run_total. Qed.
+Print Assumptions tls_run_total.
+
+(* ... and through _handle_crypto_frame's `except tls.Alert`: normal, or QuicConnectionError with
+   CRYPTO_ERROR + documented alert and the CRYPTO frame type, or a callback's QuicConnectionError. *)
+Theorem tls_crypto_frame_total : forall g c orcs ft data,
+  wf_cfg g -> wf0 c ->
+  match crypto_deliver true g c orcs ft data with
+  | CROk c' => wf_ctx c'
+  | CRQuic code ft' =>
+      (exists d, In d raised_alerts /\ code = EC_CRYPTO_ERROR + d /\ ft' = ft) \/
+      (code = EC_CRYPTO_ERROR + AD_missing_extension /\ ft' = FT_CRYPTO) \/
+      (code = EC_PROTOCOL_VIOLATION /\ ft' = FT_CRYPTO) \/
+      (exists o, In o orcs /\ code = o_tp_code o /\ ft' = o_tp_ft o /\ code <> 0)
+  | CRBuf => False
+  | CRExn _ => False
+  end.
+Proof. exact crypto_deliver_total. Qed.
+Print Assumptions tls_crypto_frame_total.
+
+(* The same statement is FALSE for the tree as it is: a client waiting for CertificateVerify, a 12-byte
+   CertificateVerify, a certificate whose subjectAltName does not parse (ValueError) or names "*.com"
+   (CertificateError): the exception leaves handle_message and _handle_crypto_frame (finding T8 / T9). *)
+Theorem tls_handle_message_refuted :
+  wf_cfg cfg_default_client /\ wf0 witness_ctx /\
+  handle_message false cfg_default_client witness_ctx [witness_orc 4] witness_cv = MExn (XOther TX_ValueError) /\
+  handle_message false cfg_default_client witness_ctx [witness_orc 5] witness_cv = MExn (XOther TX_CertificateError) /\
+  handle_message true cfg_default_client witness_ctx [witness_orc 4] witness_cv = MExn (XAlert AD_bad_certificate) /\
+  handle_message true cfg_default_client witness_ctx [witness_orc 5] witness_cv = MExn (XAlert AD_bad_certificate) /\
+  crypto_deliver false cfg_default_client witness_ctx [witness_orc 4] FT_CRYPTO witness_cv = CRExn TX_ValueError.
+Proof. exact handle_message_refuted. Qed.
+Print Assumptions tls_handle_message_refuted.
+
+(* The raise sites, except clauses, subscripts and .decode() calls of every parser / handler of the CURRENT
+   tls.py are those the model was written against (or those plus docs/C05-fix-7.patch). *)
+Theorem tls_sites_pinned :
+  sites_eqb tls_sites sites_pinned || sites_eqb tls_sites sites_patched || sites_eqb tls_sites sites_patched9 = true.
+Proof. exact tls_sites_known. Qed.
+Print Assumptions tls_sites_pinned.
+
+(* Sessions: any sequence of receive_datagram calls delivering CRYPTO data.  With the gate at the top of
+   receive_datagram (54d8ff0) nothing reaches the TLS engine once a close is pending -- whatever half-updated
+   state [after_exn] the failed handler left -- so the session never ends in an escaping exception. *)
+Theorem tls_session_total : forall g, wf_cfg g -> forall after_exn chunks c closing, wf0 c ->
+  match crypto_session true true after_exn g c closing chunks with
+  | NOk c' => wf0 c'
+  | NClosing _ _ => True
+  | NExn _ => False
+  end.
+Proof. exact crypto_session_total. Qed.
+Print Assumptions tls_session_total.
+
+(* Without that gate (tree before 54d8ff0, finding T10): two ServerHello messages without key_share in two
+   datagrams, no datagrams_to_send() in between: AttributeError (None.select) escapes; with the gate: CRYPTO_ERROR
+   + illegal_parameter and the second datagram is ignored. *)
+Theorem tls_session_refuted :
+  wf_cfg cfg_default_client /\ wf0 t10_ctx /\
+  crypto_session true false t10_after cfg_default_client t10_ctx None
+    [([orc0], FT_CRYPTO, sh_no_key_share); ([orc0], FT_CRYPTO, sh_no_key_share)] = NExn TX_AttributeError /\
+  crypto_session true true t10_after cfg_default_client t10_ctx None
+    [([orc0], FT_CRYPTO, sh_no_key_share); ([orc0], FT_CRYPTO, sh_no_key_share)]
+    = NClosing (EC_CRYPTO_ERROR + AD_illegal_parameter) FT_CRYPTO.
+Proof. exact crypto_session_refuted. Qed.
+Print Assumptions tls_session_refuted.
+
+(* Finding T11, tree without docs/C05-fix-9.patch: a Certificate whose X.509 version field is not 1 or 3 makes
+   x509.load_der_x509_certificate raise x509.InvalidVersion, which `except ValueError` in _set_peer_certificate does
+   not catch. *)
+Theorem tls_certificate_refuted :
+  wf0 t11_ctx /\
+  handle_message false cfg_default_client t11_ctx [t11_orc] t11_cert = MExn (XOther TX_InvalidVersion) /\
+  handle_message true cfg_default_client t11_ctx [t11_orc] t11_cert = MExn (XAlert AD_bad_certificate).
+Proof. exact set_peer_certificate_refuted. Qed.
+Print Assumptions tls_certificate_refuted.
